@@ -341,7 +341,7 @@ func magLabel(c *C13Case) string {
 
 func init() {
 	defProp("C13",
-		"rapid-generated base cases (boolean operation, rectangle clipping, polygon inflation of a verified simple set, Area64/IsPositive64, PointInPolygon, SimplifyPath64) with extents 2^4..2^29, and a transform: translation by up to +-2^52 (one quarter at the limit) or scaling by an integer factor (powers of two and odd factors) up to 2^61/extent; oracle: exact (128-bit) winding of the transformed input at the images of the base probes farther than the band from all edges in both frames (band 2, plus 2^-40 of the extent when scaling), the same membership as the base result (metamorphic), Area64 within 1e-12 of the exact value and IsPositive64 its sign, PointInPolygon identical, SimplifyPath64 keeping the same vertices; non-trivial = probes inside and outside / non-degenerate operand",
+		"rapid-generated base cases (boolean operation, rectangle clipping, polygon inflation of a verified simple set, Area64/IsPositive64, PointInPolygon, SimplifyPath64 of closed and of open paths) with extents 2^4..2^29, and a transform: translation by up to +-2^52 (one quarter at the limit) or scaling by an integer factor (powers of two and odd factors) up to 2^61/extent; oracle: exact (128-bit) winding of the transformed input at the images of the base probes farther than the band from all edges in both frames (band 2, plus 2^-40 of the extent when scaling), the same membership as the base result (metamorphic), Area64 within 1e-12 of the exact value and IsPositive64 its sign, PointInPolygon identical, SimplifyPath64 keeping the same vertices; non-trivial = probes inside and outside / non-degenerate operand",
 		[]string{"the oracle kit switches to 128-bit products when a difference exceeds 2^31, so it is exact over the whole advertised range"},
 		drawC13, judgeC13)
 }
